@@ -4,7 +4,7 @@ from __future__ import annotations
 
 from functools import partial
 
-from . import e1, e1b, e2, e2b, e3, e4, e5, e6, e7, e8, e9, e10, e11
+from . import e1, e1b, e2, e2b, e3, e4, e5, e6, e7, e7b, e8, e9, e10, e11
 
 TB_E1 = [
     "the rewriting normaliser of sv/algebra.py (confluence re-checked on all critical triples on every run)",
@@ -22,7 +22,7 @@ wf_main = partial(e2.rule_wellfounded, programs=("main",))
 wf_nh = partial(e2.rule_wellfounded, programs=("nonhermitian",))
 wf_all = partial(e2.rule_wellfounded, programs=("main", "nonhermitian"))
 tv_shipped = partial(e9.rule_translation, which=("main", "nonhermitian"))
-diag_solver_real = partial(e7.rule_diagonal_solver, complex_energies=False)  # Hermitian H_0: real energies
+diag_solver_real = partial(e7b.rule_diagonal_solver, complex_energies=False)  # Hermitian H_0: real energies
 
 # ideal DSL semantics tied to the code: shared by the algorithm-level properties
 CORE = [e1b.rule_projection_pairs, e1b.rule_scope_flags, e2.rule_product_by_order, e2.rule_adjoint_fill, e2.rule_cauchy_wiring,
@@ -55,7 +55,7 @@ prop(
 
 prop(
     "C02", level="proof", trusted_base=TB_E1, selftest=["algorithms", "series"],
-    rules=[main_e1, wf_main, *CORE],
+    rules=[main_e1, wf_main, diag_solver_real, *CORE],
     explanation=(
         "Unitarity (1+U'†)(1+U') = (1+U')(1+U'†) = 1, adj(U) = U†, Hermiticity of U†HU and of every series/product "
         "carrying a hermitian/antihermitian marker are obligations of the E1 certificate of `main`; the Hermitian "
@@ -85,7 +85,7 @@ prop(
 
 prop(
     "C05", level="other", selftest=["algorithms"],
-    rules=[nh_e1, wf_nh, e7.rule_diagonal_solver, *CORE],
+    rules=[nh_e1, wf_nh, e7b.rule_diagonal_solver, *CORE],
     explanation=(
         "E1 certificate of algorithms.py::nonhermitian (atoms H_0, H'_S, H'_R, U', U_inv'; rules U_inv U = U U_inv = 1, "
         "gauge S[U_inv'] = S[U']): inverse relations, gauge, Sylvester equation, elimination, B and H_tilde are "
@@ -97,7 +97,7 @@ prop(
 prop(
     "C06", level="other", selftest=["linalg", "block_diagonalization"],
     rules=[e8.rule_implicit_wiring, e6.rule_projector, e6.rule_base_state, e6.rule_projector_call_sites,
-           e7.rule_direct_solver, e7.rule_greens_function, e7.rule_diagonal_solver, e7.rule_kpm_structure, e4.rule_value_preserving,
+           e7.rule_direct_solver, e7.rule_greens_function, e7b.rule_diagonal_solver, e7.rule_kpm_structure, e4.rule_value_preserving,
            e11.rule_helpers],
     explanation=(
         "Only structural necessary conditions are decided (numerical equality of the implicit and explicit paths is "
@@ -140,7 +140,7 @@ prop(
 prop(
     "C10", level="other", selftest=["series", "block_diagonalization"],
     rules=[e4.rule_no_inplace_mutation, e4.rule_closure_state, e3.rule_memo_owner, e3.rule_typestate,
-           e7.rule_shared_eigenvalue_check, e4.rule_loop_carried_state],
+           e7b.rule_shared_eigenvalue_check, e4.rule_loop_carried_state],
     explanation=(
         "Structural cause of history independence: evals are pure and the memo is disciplined. Flow-sensitive "
         "freshness analysis over every function of the evaluation modules (in-place sinks: augmented assignment, item "
@@ -152,7 +152,7 @@ prop(
 
 prop(
     "C11", level="other", selftest=["series"],
-    rules=[e3.rule_typestate, e3.rule_memo_owner, e4.rule_closure_state, e7.rule_shared_eigenvalue_check],
+    rules=[e3.rule_typestate, e3.rule_memo_owner, e4.rule_closure_state, e7b.rule_shared_eigenvalue_check],
     explanation=(
         "Typestate of the in-flight marker on the control-flow graph (with exceptional edges) of the one function that "
         "owns it: from the store of PENDING every path to a normal or exceptional exit passes a store of the result or "
@@ -198,7 +198,7 @@ prop(
 
 prop(
     "C16", level="other", selftest=["block_diagonalization", "linalg", "second_quantization"],
-    rules=[e7.rule_diagonal_solver, e7.rule_shared_eigenvalue_check, e7.rule_direct_solver, e7.rule_greens_function,
+    rules=[e7b.rule_diagonal_solver, e7b.rule_shared_eigenvalue_check, e7.rule_direct_solver, e7.rule_greens_function,
            e7.rule_solve_scalar, e7.rule_kpm_structure, e6.rule_projector, e4.rule_value_preserving, e11.rule_helpers],
     explanation=(
         "Sibling cross-check of the solver implementations against the contract H0_i T - T H0_j = Y: orientation "
@@ -249,7 +249,7 @@ prop(
 prop(
     "C20", level="other", selftest=["block_diagonalization"],
     rules=[e5.rule_guards, e5.rule_h0_block_diagonal, e5.rule_guard_dominance, e5.rule_symbolic_hermiticity,
-           e5.rule_total_callbacks, e7.rule_shared_eigenvalue_check, diag_solver_real, e11.rule_helpers],
+           e5.rule_total_callbacks, e7b.rule_shared_eigenvalue_check, diag_solver_real, e11.rule_helpers],
     explanation=(
         "Each rejection the property lists is located as a raise whose path condition has exactly the required truth "
         "table over canonical atoms (robust to De-Morgan / nesting / early-return rewrites) and that precedes the "
